@@ -42,6 +42,9 @@ def gen_expr(rng, fields, boolean=False, depth=2, vector=False):
     if rng.chance(0.1):
         # a Python builtin (abs works on numbers and arrays alike)
         return ["abs", gen_expr(rng, fields, False, depth - 1, vector)]
+    if rng.chance(0.08):
+        # a nested scope inside the expression (a generator expression reads the record's fields from its own frame)
+        return ["gsum", gen_expr(rng, fields, False, depth - 1, vector)]
     if rng.chance(0.12):
         return ["/c", gen_expr(rng, fields, False, depth - 1, vector), rng.pick([2.0, 4.0, 0.5])]
     return [rng.pick(ARITH), gen_expr(rng, fields, False, depth - 1, vector), gen_expr(rng, fields, False, depth - 1, vector)]
@@ -76,6 +79,8 @@ def expr_source(a):
         return "(-%s)" % expr_source(a[1])
     if k == "abs":
         return "abs(%s)" % expr_source(a[1])
+    if k == "gsum":
+        return "sum(%s * k_ for k_ in (1.0, 2.0))" % expr_source(a[1])
     if k == "not":
         return "(not %s)" % expr_source(a[1])
     if k == "/c":
@@ -105,6 +110,9 @@ def _ev(a, d):
         return -_ev(a[1], d)
     if k == "abs":
         return abs(_ev(a[1], d))
+    if k == "gsum":
+        v_ = _ev(a[1], d)
+        return 0 + v_ * 1.0 + v_ * 2.0
     if k == "not":
         return not _ev(a[1], d)
     if k == "/c":
